@@ -781,6 +781,26 @@ def percent_format(interp, fmt, arg):
             continue
         if i + 1 >= len(s):
             raise ValueError("incomplete format")
+        if s[i + 1:i + 4] in (b"02X", b"02x"):
+            # two hex digits, zero padded (same model as format(n, '02X'))
+            spec = s[i + 1:i + 4].decode()
+            i += 4
+            if lit:
+                out.append(conv(bytes(lit)))
+                lit = bytearray()
+            if not args:
+                raise TypeError("not enough arguments for format string")
+            v = args.pop(0)
+            if isinstance(v, int) and not isinstance(v, bool):
+                out.append(conv(("%" + spec) .encode() % v) if kind == "bytes" else ("%" + spec) % v)
+                continue
+            if isinstance(v, SInt):
+                r = format_int(interp, v, spec)
+                if r is None:
+                    raise Unsupported("%%%s of a symbolic int outside 0..255" % spec)
+                out.append(r if kind == "str" else core._seq_value(r.term, "bytes", True))
+                continue
+            raise Unsupported("%%%s formatting of %r" % (spec, type(v)))
         c = chr(s[i + 1])
         i += 2
         if c == "%":
